@@ -113,6 +113,21 @@ Theorem C08_step_state : forall (R : Type) (o : ring_ops R), ring_laws o -> fora
 Proof. exact @step_main. Qed.
 Print Assumptions C08_step_state.
 
+(* ... and such a step never panics when the pivot list is valid: distinct rows, distinct columns, in range, and
+   the pivots (the diagonal of the permuted leading block) are units.  (The shapes of the neighbouring matrices,
+   of the stored Trans and of the tracked vectors needed by the assert!s follow from the invariant.) *)
+Theorem C08_step_defined : forall (R : Type) (o : ring_ops R) (u : unit_ops R), unit_laws o u ->
+  forall (M : nat) (N : nat -> nat) (D : nat -> dmat R) (V0 : nat -> list (list R))
+         (st : state R) (p : nat) (a1 : dmat R) (pt : ptype) (pivs : list (nat * nat)),
+  sdr o M N D V0 st -> mats st p = Some a1 ->
+  NoDup (map fst pivs) -> Forall (fun i => i < dr a1) (map fst pivs) ->
+  NoDup (map snd pivs) -> Forall (fun j => j < dc a1) (map snd pivs) ->
+  (forall vp vq, perm_order (dr a1) (map fst pivs) = Some vp -> perm_order (dc a1) (map snd pivs) = Some vq ->
+     unit_diag o u (dblock o (permute o a1 vp vq) 0 0 (length pivs) (length pivs)) (length pivs)) ->
+  exists st' cont, reduce_with o u st p a1 pt pivs = Some (st', cont).
+Proof. exact @reduce_with_some. Qed.
+Print Assumptions C08_step_defined.
+
 Theorem C08_reduce_at_spec : forall (R : Type) (o : ring_ops R), ring_laws o -> forall u : unit_ops R, unit_laws o u ->
   forall (M : nat) (N : nat -> nat) (D : nat -> dmat R) (V0 : nat -> list (list R)),
   (forall p, p < M -> dwf (D p) /\ dr (D p) = N (S p) /\ dc (D p) = N p) ->
@@ -142,7 +157,7 @@ Theorem C08_all : forall (R : Type) (o : ring_ops R), ring_laws o -> forall u : 
   (forall p, p < M -> dwf (D p) /\ dr (D p) = N (S p) /\ dc (D p) = N p) ->
   forall (st0 : state R) (supp : list nat) (ops : list op) (orc : list (list (nat * nat)))
          (st : state R) (orc' : list (list (nat * nat))),
-  is_input o M N D V0 st0 -> okf st0 = true ->
+  is_input o M N D V0 st0 ->
   run_script o u supp ops st0 orc = Some (st, orc') -> okf st = true ->
   sdr o M N D V0 st.
 Proof. exact @run_script_main. Qed.
